@@ -315,8 +315,16 @@ impl Engine {
         if let Some(p) = secret {
             outs.push(self.line(c, &format!("PASS {}", p)));
         }
-        outs.push(self.line(c, &format!("NICK {}", nick)));
-        outs.push(self.line(c, &format!("USER {} 0 * :Real {}", user, nick)));
+        // both orders of NICK and USER are legal; which one a connection uses is a pure function of
+        // its number and nick (no RNG here: replays stay exact)
+        let user_first = (c + nick.len() + nick.bytes().map(|b| b as usize).sum::<usize>()) % 3 == 0;
+        if user_first {
+            outs.push(self.line(c, &format!("USER {} 0 * :Real {}", user, nick)));
+            outs.push(self.line(c, &format!("NICK {}", nick)));
+        } else {
+            outs.push(self.line(c, &format!("NICK {}", nick)));
+            outs.push(self.line(c, &format!("USER {} 0 * :Real {}", user, nick)));
+        }
         (c, outs)
     }
 }
